@@ -339,6 +339,9 @@ func (s *server) Start(useGoRoutine bool) (err error) {
 	srv := &http.Server{
 		Handler: e,
 	}
+	if handled, err := verifListen(s, e); handled {
+		return err
+	}
 	ln, err := net.Listen("tcp", s.addr)
 	if err != nil {
 		return
@@ -371,6 +374,9 @@ func (s *server) Close() error {
 	err := s.e.GracefulClose(10 * time.Second)
 	if err != nil {
 		return err
+	}
+	if verifCloseListener(s) {
+		return nil
 	}
 	return s.ln.Close()
 }
